@@ -1,8 +1,10 @@
-"""C13 - fossil collection keeps what rollbacks need: real fossil_lp_collect + model_allocator_fossil_lp_collect (s_fossil)."""
+"""C13 - fossil collection keeps what rollbacks need: real fossil_lp_collect + model_allocator_fossil_lp_collect (s_fossil), and the
+real process_msg()/fossil_on_gvt() under every delivery order and legal GVT announcement (h_proc)."""
 import json
 import time
 from lib import vcommon as vc
 from checks import alloc_common as ac
+from checks import hrun_common as hc
 
 PID = "C13"
 
@@ -30,26 +32,39 @@ def run(tier, seed):
     dl = {"SX_DEADLINE": "200" if tier == "quick" else "2400"}
     reps = vc.run_parallel([(lambda x=x, a=a: vc.run_seqx(x, a, timeout=3600, env_extra=dl)) for x, a in plan(tier, b)])
     tot, viol = vc.seqx_collect(PID, "fossil", reps)
+    preps, pm, pviol = hc.proc_part(PID, d, tier)
+    viol += pviol
     if not viol and (tot["distinct_nontrivial"] < 1000 or tot["transitions"] < 1000):
         raise vc.EngineError("vacuous: hardly any collection that released entries / rollback after collection")
     n = vc.triage(PID, viol)
     cov = dict(tot)
     cov["samples"] = tot["samples"][:6]
     cov["states"] = tot["evaluations"]
-    cov["traces_validated_against_impl"] = tot["evaluations"]
+    cov["evaluations"] = tot["evaluations"] + pm["executions"]
+    cov["states"] = tot["evaluations"] + pm["new_choice_points"]
+    cov["transitions"] = tot["transitions"] + hc.counters_sum(pm, "steps")
+    cov["traces_validated_against_impl"] = tot["evaluations"] + pm["executions"]
+    cov["distinct_nontrivial"] = tot["distinct_nontrivial"] + hc.counters_nz(pm, "rollbacks_after_fossil")
+    cov["h_proc"] = hc.proc_summary(pm, preps)
+    cov["exhaustive"] = bool(cov.get("exhaustive", True)) and pm["exhaustive"]
     cov["rule"] = ("every history of <= n events (timestamp increments in {0,1}: ties; 0-2 sent entries per event, local/remote; history "
                    "laid out as lp/process.c does) x checkpoint interval 1..c x GVT in steps of 0.5 from 0 to beyond the last timestamp x "
                    "legal rollback target (or none) x second GVT; states = scenarios; transitions = collections that committed something; "
-                   "non-trivial = scenario with a rollback performed after a collection")
+                   "non-trivial = scenario with a rollback performed after a collection. " + hc.PROC_RULE +
+                   "; there non-trivial = execution with a rollback after a fossil collection of that LP")
     vc.write_evidence(PID, tier, "model_checking", cov,
-                      ["rollback/coast-forward driver replicates do_rollback()/silent_execution() of lp/process.c (static there); the "
-                       "real ones are exercised end-to-end by the h_run checks",
+                      ["s_fossil: rollback/coast-forward driver replicates do_rollback()/silent_execution() of lp/process.c (static there); "
+                       "h_proc runs the real ones (match_straggler_msg, match_anti_msg, do_rollback, silent_execution) on the shortened history",
+                       "h_proc: local messages only (remote anti-messages are covered by the 2-rank h_run scenarios of C02/C03/C06); models of the "
+                       "vmodel grammar with 2-3 LPs and horizon 2-4; allocator layout is not part of the state digest",
                        "event handlers are a fixed 4-step allocator program so that every position has a distinct state"],
                       time.time() - t0, n, seed)
     return 1 if n else 0
 
 
 def replay(path):
+    if hc.is_proc_replay(path):
+        return vc.rsched_replay(hc.build_proc(vc.fresh_dir(PID + "_replay")), path)
     r = json.load(open(path))
     d = vc.fresh_dir(PID + "_replay")
     b = build(d)
